@@ -138,6 +138,7 @@ class Harness(object):
         self.steps = StepCounter()
         self.cal = {}               # decoder variant -> [max steps, max steps/len]
         self.viol = {}              # key -> [what, count, [(size, witness)]]
+        self._sampled = {}
         self.wall_s = 240 if ctx.tier == "quick" else 600
         signal.signal(signal.SIGALRM, self._alarm)
 
@@ -256,6 +257,9 @@ class Harness(object):
             oc = "aborted"
             ctx.count(name + "|aborted_" + kind)
         ctx.case((name, icls, oc))
+        if (icls.startswith("root:") or icls.startswith("valid")) and steps and ctx.want_sample() and self._sampled.setdefault((name, icls[:9]), 0) < 1:
+            self._sampled[(name, icls[:9])] += 1
+            ctx.sample(W(outcome=oc))
         # (1) exception class
         if kind == "exc":
             ok = isinstance(val, dec.allowed)
@@ -401,8 +405,9 @@ def rsa_corpus(ctx, L, kf, tier):
     add("pkcs1-der", "der", lambda: key.export_key(format="DER"), schema_max=9)
     add("pkcs8-der", "der", lambda: key.export_key(format="DER", pkcs=8), schema_max=4)
     add("spki-der", "der", lambda: pub.export_key(format="DER"), schema_max=2)
-    d = kf.parse_any(key.export_key(format="DER"))
-    add("pkcs1pub-der(ref)", "der", lambda: kf.rsa_pkcs1_public_der(d), schema_max=2, producer="ref")
+    d = build(ctx, "parse", lambda: kf.parse_any(key.export_key(format="DER")))
+    if d is not None:
+        add("pkcs1pub-der(ref)", "der", lambda: kf.rsa_pkcs1_public_der(d), schema_max=2, producer="ref")
     inner = key.export_key(format="DER", pkcs=8)
     prots = ["PBKDF2WithHMAC-SHA1AndDES-EDE3-CBC", "PBKDF2WithHMAC-SHA512AndAES256-CBC", "scryptAndAES128-CBC", "PBKDF2WithHMAC-SHA256AndAES128-GCM"]
     if tier == "thorough":
@@ -419,7 +424,8 @@ def rsa_corpus(ctx, L, kf, tier):
         enc="pkcs8", schema_max=2, inner=inner, protection=prots[1])
     add("spki-pem", "pem", lambda: pub.export_key(format="PEM").decode(), schema_max=2)
     add("openssh-pub", "sshpub", lambda: pub.export_key(format="OpenSSH"))
-    add("openssh-priv(ref)", "sshpriv", lambda: kf.openssh_private_encode(d, comment=b"c13"), producer="ref")
+    if d is not None:
+        add("openssh-priv(ref)", "sshpriv", lambda: kf.openssh_private_encode(d, comment=b"c13"), producer="ref")
     return out
 
 
@@ -599,7 +605,8 @@ class ImporterRun(object):
                     x = M.extra_members(clear, e.schema_max)
                     if x is not None:
                         data, views = self.wrap(e, x)
-                        self.offer(e, data, "extra-member", e.needs_pw, expect=("refuse", "extra-member"))
+                        cls = "encrypted-container-extra-member" if e.enc == "pkcs8" else "extra-member"
+                        self.offer(e, data, cls, e.needs_pw, expect=("refuse", cls))
                 if e.enc == "pkcs8" and e.inner is not None:
                     for kind, mut in M.root_mutations(e.inner, rng):
                         self.offer(e, reencrypt(self.L, e, mut), "root:%s(inside-encryption)" % kind, True, views=[mut])
